@@ -5,6 +5,6 @@ CONSTANTS
     BndKinds <- MCBndKinds
     ExtParams <- MCExtParams
     Scenarios <- MCScenarios
-    Tier = "thorough"
+    Tier = "tun"
 INVARIANTS TypeOK WellFormedOrSilent OfferedReflectsCreds OnlySelectedOffered SplitAtFirstColon DestFaithful ProceedsOnlyOnSuccess FailureMapping TunnelIsDestination SegIndependent EmitBehaviour
 CHECK_DEADLOCK FALSE
